@@ -1121,4 +1121,4 @@ def r25(ctx, P):
                    'the divisor %s is compared with zero on every path to the division' % dtxt if w is None else
                    'the divisor %s can be 0 (e.g. two neighbouring entries with the same value): the quotient is inf or NaN and its conversion to an integer is undefined behaviour - on x86 the caller receives INT64_MIN as a valid result' % dtxt,
                    w.render() if w else None)
-    ctx.floor('floating quotients converted to integers', n, 2)
+    ctx.floor('floating quotients converted to integers', n, 1)
